@@ -210,6 +210,20 @@ def make_case(args):
                             contiguous=bool(arr.flags["C_CONTIGUOUS"])))
     except Exception as e:
         out.append(dict(op="np_ptm3", variant="layout", crash=f"{type(e).__name__}: {str(e)[:200]}", icase=icase))
+    # the legacy numpy regridder (2-D branch: new directions) on Fortran-ordered / transposed-view / strided spectra
+    try:
+        from wavespectra.core.utils import interp_spec
+
+        tf = np.concatenate([freq[::2], (freq[:-1] + freq[1:]) / 2])
+        td = (np.asarray(dirs) + 360.0 / nd / 2) % 360
+        ref = np.asarray(interp_spec(np.ascontiguousarray(S), freq, dirs, outfreq=tf, outdir=td))
+        for tag, arr in (("fortran", np.asfortranarray(S)), ("transposed_view", S.T.copy().T), ("strided", np.repeat(S, 2, axis=1)[:, ::2])):
+            got = np.asarray(interp_spec(arr, freq, dirs, outfreq=tf, outdir=td))
+            out.append(dict(op="interp_spec", variant=tag, icase=icase, dims=["freq", "dir"], nd=nd, nf=nf, contiguous=True,
+                            diff=None if np.allclose(got, ref, rtol=1e-12, atol=1e-12, equal_nan=True) else
+                            f"differs from the C-contiguous call by {float(np.nanmax(np.abs(got - ref)))}"))
+    except Exception as e:
+        out.append(dict(op="interp_spec", variant="layout", crash=f"{type(e).__name__}: {str(e)[:200]}", icase=icase))
     return out
 
 
